@@ -494,3 +494,152 @@ func init() {
 		return nil
 	})
 }
+
+// ---- C31: edit the public view, then convert.
+// editPaths enumerates one-member edits of a PubClientHelloMsg by reflection: every exported member except Raw, every
+// element of its lists, every field of nested structs, plus dropping the last element of each list.
+type editOp struct {
+	path, member string
+	apply        func(p *tls.PubClientHelloMsg) bool // false: nothing to edit (empty member)
+}
+
+func bumpValue(v reflect.Value) bool {
+	switch v.Kind() {
+	case reflect.Bool:
+		v.SetBool(!v.Bool())
+	case reflect.Uint8, reflect.Uint16, reflect.Uint32, reflect.Uint64:
+		v.SetUint(v.Uint() + 1)
+	case reflect.String:
+		v.SetString(v.String() + "x")
+	case reflect.Slice:
+		if v.Type().Elem().Kind() != reflect.Uint8 {
+			return false
+		}
+		if v.Len() == 0 {
+			return false
+		}
+		// replace, do not write through: the bytes may be shared with the cached private hello
+		nb := append([]byte(nil), v.Bytes()...)
+		nb[0] ^= 0x55
+		v.SetBytes(nb)
+	default:
+		return false
+	}
+	return true
+}
+
+func editPaths(sample *tls.PubClientHelloMsg) []editOp {
+	var ops []editOp
+	t := reflect.TypeOf(*sample)
+	sv := reflect.ValueOf(sample).Elem()
+	for i := 0; i < t.NumField(); i++ {
+		f := t.Field(i)
+		if !f.IsExported() || f.Name == "Raw" {
+			continue
+		}
+		idx := i
+		name := f.Name
+		fv := sv.Field(i)
+		isBytes := fv.Kind() == reflect.Slice && f.Type.Elem().Kind() == reflect.Uint8
+		if fv.Kind() != reflect.Slice || isBytes {
+			ops = append(ops, editOp{name, name, func(p *tls.PubClientHelloMsg) bool {
+				return bumpValue(reflect.ValueOf(p).Elem().Field(idx))
+			}})
+			continue
+		}
+		for k := 0; k < fv.Len(); k++ {
+			kk := k
+			if f.Type.Elem().Kind() == reflect.Struct {
+				et := f.Type.Elem()
+				for j := 0; j < et.NumField(); j++ {
+					jj := j
+					ops = append(ops, editOp{fmt.Sprintf("%s[%d].%s", name, k, et.Field(j).Name), name, func(p *tls.PubClientHelloMsg) bool {
+						l := reflect.ValueOf(p).Elem().Field(idx)
+						// copy the list first: the element structs may be shared
+						nl := reflect.MakeSlice(l.Type(), l.Len(), l.Len())
+						reflect.Copy(nl, l)
+						l.Set(nl)
+						return bumpValue(l.Index(kk).Field(jj))
+					}})
+				}
+				continue
+			}
+			ops = append(ops, editOp{fmt.Sprintf("%s[%d]", name, k), name, func(p *tls.PubClientHelloMsg) bool {
+				l := reflect.ValueOf(p).Elem().Field(idx)
+				nl := reflect.MakeSlice(l.Type(), l.Len(), l.Len())
+				reflect.Copy(nl, l)
+				l.Set(nl)
+				return bumpValue(l.Index(kk))
+			}})
+		}
+		if fv.Len() > 0 {
+			ops = append(ops, editOp{name + "[-last]", name, func(p *tls.PubClientHelloMsg) bool {
+				l := reflect.ValueOf(p).Elem().Field(idx)
+				l.Set(l.Slice(0, l.Len()-1))
+				return true
+			}})
+		}
+	}
+	return ops
+}
+
+// pubedit: {"scns":[{"raw":[bytes]}]} -> for every ClientHello and every one-member edit:
+//   {ev:"Edit", base (index of the hello), path, member, before (view as parsed), pub (view after the edit),
+//    priv (private form the edited view converts to), m (Marshal of the edited view with Raw cleared), q (parse of m), err}
+// The view comes from UnmarshalClientHello, i.e. it carries whatever the library caches in it.
+func init() {
+	hlib.Register("pubedit", func(in []byte, out *hlib.Out) error {
+		var req struct {
+			Scns []struct {
+				Raw []int `json:"raw"`
+			}
+		}
+		if err := json.Unmarshal(in, &req); err != nil {
+			return err
+		}
+		for bi, sc := range req.Scns {
+			raw := hlib.Unints(sc.Raw)
+			sample := tls.UnmarshalClientHello(raw)
+			if sample == nil {
+				out.Emit(map[string]any{"ev": "Edit", "base": bi, "path": "", "member": "", "err": "base hello does not parse",
+					"before": map[string]any{}, "pub": map[string]any{}, "priv": map[string]any{}, "m": []int{}, "q": map[string]any{}, "applied": false})
+				continue
+			}
+			for _, op := range editPaths(sample) {
+				empty := map[string]any{}
+				ev := map[string]any{"ev": "Edit", "base": bi, "path": op.path, "member": op.member, "err": "", "before": empty, "pub": empty,
+					"priv": empty, "m": []int{}, "q": empty, "applied": false}
+				func() {
+					defer func() {
+						if p := recover(); p != nil {
+							ev["err"] = fmt.Sprint("panic: ", p)
+						}
+					}()
+					p := tls.UnmarshalClientHello(append([]byte(nil), raw...))
+					ev["before"] = pubJ(p)
+					if !op.apply(p) {
+						return
+					}
+					ev["applied"] = true
+					ev["pub"] = pubJ(p)
+					ev["priv"] = privJ(tls.VerifClientHelloToPrivate(p))
+					p.Raw = nil
+					m, err := p.Marshal()
+					if err != nil {
+						ev["err"] = "Marshal: " + err.Error()
+						return
+					}
+					ev["m"] = hlib.Ints(m)
+					q := tls.UnmarshalClientHello(m)
+					if q == nil {
+						ev["err"] = "encoding of the edited view does not parse"
+						return
+					}
+					ev["q"] = pubJ(q)
+				}()
+				out.Emit(ev)
+			}
+		}
+		return nil
+	})
+}
